@@ -137,7 +137,7 @@ class ModelTimeout(Exception):
 class Driver:
     """The Lean model behind a line protocol (native executable built by `lake build`)."""
 
-    def __init__(self, budget_s=30.0):
+    def __init__(self, budget_s=12.0):
         if not os.path.exists(DRIVER):
             raise RuntimeError('model driver not built: run `cd lean && lake build`')
         self.budget_s = budget_s
